@@ -122,8 +122,8 @@ theorem next_found (inp : List UInt8) (G : Prop) (fuel : Nat) (r : Reader) (its 
         bp := { r.bp with pos0 := r.bp.pos1 + 1 } } ?_ he
         (by intro ip h; simp only [hip] at h; cases h) hfuel
     · simpa only [hst] using h
-    · obtain ⟨⟨a, b, c, d, e, f, g, i, w, k⟩, -⟩ := hb
-      exact ⟨⟨a, b, c, d, e, f, g, i, w, by simp only; omega⟩, h1l⟩
+    · obtain ⟨⟨a, b, c, d, e, f, g, i, w, k, z⟩, -⟩ := hb
+      exact ⟨⟨a, b, c, d, e, f, g, i, w, by simp only; omega, z⟩, h1l⟩
 
 theorem observe_of_viewRec {r : Reader} {x : Rec} (h : viewRec r.br.buf r.bp = some x) :
     observe r (.ok true) = .record x.head x.seq x.qual r.line r.byte := by
@@ -199,7 +199,7 @@ theorem runNexts_spec (inp : List UInt8) (k : Nat) :
 theorem win_mkReader (inp : List UInt8) (G : Prop) (cap : Nat) (hcap : 3 ≤ cap) (pol : Pol)
     (hwf : PolWf1 pol) (hg : G → PolGrows pol) (script : List ReadEv) (hs : NoFail script)
     (chunk : Nat) : Win inp G (mkReader inp cap pol script chunk) := by
-  refine ⟨rfl, Nat.zero_le _, hs, hwf, hg, hcap, Nat.zero_le _, Nat.le_refl _, ?_, rfl⟩
+  refine ⟨rfl, Nat.zero_le _, hs, hwf, hg, hcap, Nat.zero_le _, Nat.le_refl _, ?_, rfl, rfl⟩
   simp [mkReader]
 
 theorem good_mkReader' (inp : List UInt8) (G : Prop) (cap : Nat) (hcap : 3 ≤ cap) (pol : Pol)
